@@ -26,14 +26,30 @@ type C07Case struct {
 	// Prefix, when set, is a parser stage in front of Stage: the rewriting stage then works on
 	// extracted labels (JSON numbers and booleans among them).
 	Prefix *gen.Stage `json:"prefix,omitempty"`
+	// Prefix2, with Prefix, is a stage between the two that takes one of the two error labels
+	// away again (| drop __error__, | drop __error_details__): a template that fails afterwards
+	// still has to flag the record.
+	Prefix2 *gen.Stage `json:"prefix2,omitempty"`
+}
+
+func (c C07Case) prefixStages() []gen.Stage {
+	var out []gen.Stage
+	if c.Prefix != nil {
+		out = append(out, *c.Prefix)
+		if c.Prefix2 != nil {
+			out = append(out, *c.Prefix2)
+		}
+	}
+	return out
 }
 
 func c07Check(c C07Case) (r evid.Result) {
 	recs := c.Recs // already in time order, index-aligned with Plain
 	q := gen.LogQuery{Stages: []gen.Stage{c.Stage}}
 	if c.Prefix != nil {
-		q.Stages = []gen.Stage{*c.Prefix, c.Stage}
+		q.Stages = append(c.prefixStages(), c.Stage)
 	}
+	r.Class(c.Prefix2 != nil, "an-error-label-dropped-before")
 	r.Class(true, "stage="+c.Stage.Kind)
 	r.Class(c.Prefix != nil, "after-json-parser")
 	store := mockstore.New(recs, mockstore.Caps{})
@@ -89,7 +105,7 @@ func c07Check(c C07Case) (r evid.Result) {
 		}
 		base := rec.BaseLabels()
 		if c.Prefix != nil {
-			if _, pl, _, perr := model.NewPipeline([]gen.Stage{*c.Prefix}).Process(rec, rec.TS, string(rec.Line), rec.BaseLabels()); perr == nil {
+			if _, pl, _, perr := model.NewPipeline(c.prefixStages()).Process(rec, rec.TS, string(rec.Line), rec.BaseLabels()); perr == nil {
 				base = pl
 			}
 		}
@@ -237,7 +253,7 @@ func c07Gen(t *rapid.T) C07Case {
 				for _, r := range c.Recs {
 					labels := r.BaseLabels()
 					if c.Prefix != nil {
-						if _, pl, _, perr := model.NewPipeline([]gen.Stage{*c.Prefix}).Process(r, r.TS, string(r.Line), r.BaseLabels()); perr == nil {
+						if _, pl, _, perr := model.NewPipeline(c.prefixStages()).Process(r, r.TS, string(r.Line), r.BaseLabels()); perr == nil {
 							labels = pl
 						}
 					}
@@ -257,10 +273,10 @@ func c07Gen(t *rapid.T) C07Case {
 		}
 	}
 	c.Stage = st
-	stages := []gen.Stage{st}
-	if c.Prefix != nil {
-		stages = []gen.Stage{*c.Prefix, st}
+	if c.Prefix != nil && (st.Kind == "line_format" || st.Kind == "label_format") && rapid.IntRange(0, 2).Draw(t, "drop-an-error-label-first") == 0 {
+		c.Prefix2 = &gen.Stage{Kind: "drop", Labels: []string{rapid.SampledFrom([]string{"__error__", "__error_details__"}).Draw(t, "dropped-error-label")}}
 	}
+	stages := append(c.prefixStages(), st)
 	c.Text = gen.PrintLog(&gen.LogQuery{Stages: stages}, gen.Plain{})
 	return c
 }
